@@ -57,7 +57,8 @@ CONSTANTS Modes, Paces, ShutKinds, CleanKinds, EhKinds, CtxOuts, FinKinds,
 
 VARIABLES dcfg,     \* [mode, pace, shut, clean, eh, ctxout]
           r,        \* lifecycle record of the daemon service (ServiceAbs)
-          loop,     \* "idle" | "run" (a base run is in progress) | "parked" (select, timer never fires) | "done"
+          loop,     \* "idle" | "run" (a base run is in progress) | "parked" (select, timer never fires) | "done" |
+                    \* "fuzzy" (after a burst, until drain: which of the allowed interleavings happened is open)
           runs,     \* base runs invoked so far
           kept,     \* tokens of the errors the loop has collected (D1)
           opt,      \* tokens Wait() may or may not report (divergence PanicLoses = "either")
